@@ -59,6 +59,8 @@ def relevant_axioms(formulas, lemma_names=(), unfold=()):
 def to_smt2(ob, lemma_names=(), extra=()):
     s = z3.Solver()
     fs = list(ob.assumptions) + [ob.goal] + list(extra)
+    if not ob.assumptions and not extra and (z3.is_true(ob.goal) or z3.is_false(ob.goal)):
+        lemma_names = ()      # a syntactic obligation (constant goal): quantified lemma statements would only blur a definite verdict
     ax = relevant_axioms(fs, lemma_names, getattr(ob, 'unfold', ()))
     for _, f in ax:
         s.add(f)
